@@ -87,7 +87,7 @@ RULE = (
 )
 SCOPE = {"quick": {"NE": 6400, "NI": 2800, "GRID": 1}, "thorough": {"NE": 60000, "NI": 25000, "GRID": 10}}
 FLOOR = {"quick": 3000, "thorough": 25000}
-REQUIRED_MONITORS = ["gbk.repeatable", "gbk.operand-unchanged", "ind.sequence", "ind.record-type", "ind.location", "ind.strand", "ind.identifiers", "ind.census", "ind.translation",
+REQUIRED_MONITORS = ["gbk.second-generation", "gbk.repeatable", "gbk.operand-unchanged", "ind.sequence", "ind.record-type", "ind.location", "ind.strand", "ind.identifiers", "ind.census", "ind.translation",
                      "lib.parse", "lib.structure", "lib.strand", "lib.start-frame", "lib.identifiers", "lib.mode-agreement",
                      "iw.parse", "iw.structure", "iw.strand", "iw.start-frame", "iw.identifiers", "iw.mode-agreement"]
 _W = "inscripta.biocantor.io.genbank.writer:"
@@ -728,6 +728,26 @@ def run_case(case, ctx):
               first_difference=next(((a, b) for a, b in zip(text.split("\n"), (text_b or "").split("\n")) if a != b), None) if exc_b is None else None)
     _independent_leg(case, ctx, text, srcs, genome)
     _reader_leg(case, ctx, text, srcs, "lib", "/codon_start=" in text)
+    # ---- second generation: what BioCantor read back is written again; the independent reader finds the same records (type, parts,
+    # strand) with the same identifier qualifiers in the second file as in the first (for fully identified eukaryotic models) --------
+    if flavour == "EUKARYOTIC" and case["layout"] == "disjoint" and not spec["fcolls"] and all(g.get("idmode") == "full" for g in spec["genes"]) \
+            and all(s["start_frame"] in (0, None) for s in srcs):
+        acs, e2 = ctx.call(_lib_parse, text, "SORTED")
+        if e2 is None and len(acs) == 1:
+            text2, e3 = ctx.call(_export, acs[0], flavour, False, bool(case.get("force_strand", True)))
+            if e3 is not None:
+                ctx.check("gbk.second-generation", False, key=("re-export-raised", type(e3).__name__), exc=repr(e3)[:200])
+            else:
+                idk = ("locus_tag", "gene", "transcript_id", "protein_id")
+
+                def recs(tx):
+                    # (abutting parts are compared merged: the parser documents that it reads adjacent blocks back as one)
+                    return sorted((f["type"], tuple(map(tuple, _merge_adjacent(sorted(f["parts"])))), tuple(f["strands"]),
+                                   tuple((k, tuple(sorted(f["quals"].get(k, [])))) for k in idk))
+                                  for f in _read_records(tx)[1] if f["type"] != "source")
+                r1, r2 = recs(text), recs(text2)
+                diff = next(((a, b2) for a, b2 in zip(r1, r2) if a != b2), None) if len(r1) == len(r2) else ("record-count", len(r1), len(r2))
+                ctx.check("gbk.second-generation", r1 == r2, key=("records-or-identifiers-changed-by-read-write",), first_difference=repr(diff)[:600])
 
 
 # ----------------------------------------------------------------------------------------------------------------
